@@ -437,3 +437,36 @@ Proof.
     + rewrite (sum_assort_sm _ _ _ _ _ Hf). unfold fs. rewrite valid_filter, valid_for_filter. fold fs ac v tw.
       field. repeat split; lra.
 Qed.
+
+(* ---- Assertion.make_all_assertions, plurality: the family of assertions of a whole contest ---- *)
+Lemma other_candidates_spec cands W l : In l (other_candidates cands W) <-> In l cands /\ ~ In l W.
+Proof.
+  unfold other_candidates. rewrite filter_In, nodup_In, Bool.negb_true_iff. split; intros [H1 H2]; split; try exact H1.
+  - intro H. assert (E : existsb (Z.eqb l) W = true).
+    { apply existsb_exists. exists l. split; [exact H | apply Z.eqb_refl]. }
+    congruence.
+  - destruct (existsb (Z.eqb l) W) eqn:E; [|reflexivity]. apply existsb_exists in E. destruct E as [x [Hx E]].
+    apply Z.eqb_eq in E. subst. contradiction.
+Qed.
+Lemma all_plurality_pairs_spec cands W w l :
+  In (w, l) (all_plurality_pairs cands W) <-> In w W /\ In l cands /\ ~ In l W.
+Proof.
+  unfold all_plurality_pairs, plurality_pairs. rewrite in_flat_map. split.
+  - intros [w' [Hw Hin]]. apply in_map_iff in Hin. destruct Hin as [l' [E Hl]]. inversion E; subst.
+    apply other_candidates_spec in Hl. tauto.
+  - intros [Hw [Hl Hn]]. exists w. split; [exact Hw|]. apply in_map_iff. exists l. split; [reflexivity|].
+    apply other_candidates_spec. tauto.
+Qed.
+(* every assorter of the family has mean above 1/2 iff every reported winner has more votes than every other candidate *)
+Theorem make_all_plurality_iff use_style con cs cands W :
+  (forall w l, In (w, l) (all_plurality_pairs cands W) ->
+               xlt (Fin (1 # 2)) (mean use_style con (assort_pl con w l) cs) = true)
+  <-> (forall w l, In w W -> In l cands -> ~ In l W -> (votes con w cs > votes con l cs)%Z).
+Proof.
+  pose proof (plurality_iff use_style con cs W (other_candidates cands W)) as [P1 P2]. split.
+  - intros H w l Hw Hl Hn. apply P1; [|exact Hw|apply other_candidates_spec; tauto].
+    intros w' l' Hw' Hl'. apply H. apply all_plurality_pairs_spec. apply other_candidates_spec in Hl'. tauto.
+  - intros H w l Hin. apply all_plurality_pairs_spec in Hin. destruct Hin as [Hw [Hl Hn]].
+    apply P2; [|exact Hw|apply other_candidates_spec; tauto].
+    intros w' l' Hw' Hl'. apply other_candidates_spec in Hl'. apply H; tauto.
+Qed.
